@@ -51,6 +51,10 @@ def project(wf):
     return out
 
 
+def project_probs(res):
+    return [float(x) for x in np.asarray(res, dtype=float).reshape(-1)]
+
+
 def same(proj, vec):
     if len(proj) != len(vec):
         return False
@@ -130,7 +134,33 @@ def replay_walk(ctx, steps):
                     if res is pool[o - 1]:
                         return [("bind-in-place", "%s: bind of a symbolic state returned the same object" % where)]
                     pool.append(res)
-            elif op == "probs":
+            if op in ("probs", "flip", "saveload"):
+                # route independence: the same abstract state reached through the other constructor route (one entry
+                # symbolic, bound afterwards) must answer the same call the same way
+                pre_vec = st["pre"][o - 1]
+                nzs = [k for k, a in enumerate(pre_vec) if a["n"][:4] != [0, 0, 0, 0]]
+                k0 = nzs[-1]
+                zsym = sympy.Symbol("zz")
+                alt_in = [zsym if k == k0 else amp_py(a) for k, a in enumerate(pre_vec)]
+                try:
+                    alt = Wavefunction(alt_in).bind({zsym: amp_py(pre_vec[k0])})
+                    if op == "probs":
+                        alt_res = project_probs(alt.get_probabilities())
+                        if max(abs(np.array(alt_res) - np.array([abs(ring(a["n"])) ** 2 for a in pre_vec]))) > 1e-9:
+                            return [("route:probs", "%s: the same state built symbolically and bound reports probabilities %s" % (where, alt_res))]
+                    else:
+                        if op == "flip":
+                            alt2 = flip_wavefunction(alt)
+                        else:
+                            p2 = os.path.join(ctx.tmp, "wf-%d.json" % random.getrandbits(40))
+                            save_wavefunction(alt, p2)
+                            alt2 = load_wavefunction(p2)
+                            os.unlink(p2)
+                        if not same(project(alt2), st["post"][-1]):
+                            return [("route:" + op, "%s: %s of the same state built symbolically and bound afterwards gives %s, specification %s" % (where, op, show(project(alt2)), show(project(res))))]
+                except ValueError as ex:
+                    return [("route:raises:" + op, "%s: the same state built symbolically and bound afterwards: %s" % (where, str(ex)[:150]))]
+            if op == "probs":
                 want = [abs(ring(a["n"])) ** 2 for a in st["pre"][o - 1]]
                 got = np.asarray(res, dtype=float).reshape(-1)
                 if len(got) != len(want) or max(abs(got - np.array(want))) > 1e-9 or abs(sum(got) - 1) > 1e-9:
@@ -144,6 +174,16 @@ def replay_walk(ctx, steps):
             if not same(pj, vec):
                 kind = "rollback" if out == "rejected" else "state"
                 return [("%s:%s" % (kind, op), "%s (outcome %s): object %d holds %s, specification %s" % (where, out, j + 1, show(pj), [a.get("s") or complex(round(ring(a["n"]).real, 6), round(ring(a["n"]).imag, 6)) for a in vec]))]
+            # public accessors must tell the same story as the stored vector: the symbols the object reports are the
+            # symbols its amplitudes mention (also after a rejected step: "leaves the object exactly as it was")
+            want_syms = {a["s"] for a in vec if "s" in a}
+            got_syms = {str(x) for x in wf.free_symbols}
+            if got_syms != want_syms:
+                return [("free-symbols:%s" % ("rollback" if out == "rejected" else op), "%s (outcome %s): object %d reports free symbols %s, its amplitudes mention %s" % (where, out, j + 1, sorted(got_syms), sorted(want_syms)))]
+            pub = wf.amplitudes
+            pubv = list(np.asarray(pub).reshape(-1)) if isinstance(pub, np.ndarray) else list(pub)
+            if len(pubv) != len(vec) or (not want_syms and not same([complex(x) for x in pubv], vec)):
+                return [("amplitudes-accessor", "%s: object %d: the amplitudes property disagrees with the state" % (where, j + 1))]
             # the statement itself, on the real object: normalised after every step
             nums = [p for p in pj if not isinstance(p, str)]
             tot = sum(abs(p) ** 2 for p in nums)
